@@ -16,6 +16,8 @@
  *   echo <text>
  * ops:  restrict <set> <flags> | misc <depth> <idx> <name> | group <set> | distadd <depth> <n> <kind> <flags> <seed>
  *       distrm | mreg <name> <flags> | mset <id> <numaidx> <-|set> <value> | kind <set> <eff> <name> <value>
+ *       robj <depth> <idx> <flags> (restrict to that object's cpuset/nodeset) | gobj <depth> <i> <j> | kobj <depth> <idx> <eff> <name> <value>
+ *       mseto <id> <numaidx> <depth> <idx> <value> | obs | (depth >= 1000: depth of type depth-1000)
  *       info <depth> <idx> <name> <value> | tinfo <name> <value> | refresh | allow <flags> | ud <depth> <idx> | tud | cb
  * ASan/LSan verdicts are the process exit code (97/98/96). */
 #define _GNU_SOURCE
@@ -30,12 +32,17 @@ static int hwv_ud_target[4];
 static void hwv_export_cb(void *reserved, hwloc_topology_t t, hwloc_obj_t o) { (void)reserved; (void)t; (void)o; }
 static void hwv_import_cb(hwloc_topology_t t, hwloc_obj_t o, const char *n, const void *b, size_t l) { (void)t; (void)o; (void)n; (void)b; (void)l; }
 
-static hwloc_obj_t objat(hwloc_topology_t t, int depth, unsigned idx) { return hwloc_get_obj_by_depth(t, depth, idx); }
+/* depth >= 1000 means "the depth of type (depth - 1000)" */
+static hwloc_obj_t objat(hwloc_topology_t t, int depth, unsigned idx)
+{
+  if (depth >= 1000) { depth = hwloc_get_type_depth(t, (hwloc_obj_type_t)(depth - 1000)); if (depth == HWLOC_TYPE_DEPTH_UNKNOWN || depth == HWLOC_TYPE_DEPTH_MULTIPLE) return NULL; }
+  return hwloc_get_obj_by_depth(t, depth, idx);
+}
 
 /* returns rc; *handled = 0 if the op is unknown */
 static int apply_op(hwloc_topology_t t, char *op, int *handled)
 {
-  char a1[4200], a2[256], a3[256]; int d; unsigned u, u2; unsigned long fl, kind; long long ll;
+  char a1[4200], a2[256], a3[256]; int d; unsigned u, u2; unsigned long fl, kind; long long ll; /* u2 doubles as int for kobj */
   *handled = 1; errno = 0;
   if (sscanf(op, "restrict %4199s %lu", a1, &fl) == 2) {
     hwloc_bitmap_t s = hwv_parse_set(a1); int rc;
@@ -43,6 +50,34 @@ static int apply_op(hwloc_topology_t t, char *op, int *handled)
     rc = hwloc_topology_restrict(t, s, fl); { int e = errno; hwloc_bitmap_free(s); errno = e; }
     return rc;
   }
+  if (sscanf(op, "robj %d %u %lu", &d, &u, &fl) == 3) {
+    hwloc_obj_t o = objat(t, d, u); hwloc_bitmap_t s; int rc;
+    if (!o || !o->cpuset) { errno = ENOENT; return -2; }
+    s = hwloc_bitmap_dup((fl & HWLOC_RESTRICT_FLAG_BYNODESET) ? o->nodeset : o->cpuset);
+    rc = hwloc_topology_restrict(t, s, fl); { int e = errno; hwloc_bitmap_free(s); errno = e; }
+    return rc;
+  }
+  if (sscanf(op, "gobj %d %u %u", &d, &u, &u2) == 3) {
+    hwloc_obj_t g; unsigned i; hwloc_bitmap_t s = hwloc_bitmap_alloc();
+    for (i = u; i <= u2 && i < u + 64; i++) { hwloc_obj_t o = objat(t, d, i); if (o && o->cpuset) hwloc_bitmap_or(s, s, o->cpuset); }
+    g = hwloc_topology_alloc_group_object(t);
+    if (!g) { int e = errno; hwloc_bitmap_free(s); errno = e; return -1; }
+    g->cpuset = s;
+    return hwloc_topology_insert_group_object(t, g) ? 0 : -1;
+  }
+  if (sscanf(op, "kobj %d %u %u %255s %255s", &d, &u, &u2, a2, a3) == 5) {
+    hwloc_obj_t o = objat(t, d, u); struct hwloc_info_s inf; struct hwloc_infos_s infs;
+    if (!o || !o->cpuset) { errno = ENOENT; return -2; }
+    inf.name = a2; inf.value = a3; infs.array = &inf; infs.count = 1; infs.allocated = 1;
+    return hwloc_cpukinds_register(t, o->cpuset, (int)u2, &infs, 0);
+  }
+  if (sscanf(op, "mseto %u %u %d %lu %lld", &u, &u2, &d, &kind, &ll) == 5) {   /* initiator = cpuset of object (depth d, index kind) */
+    hwloc_obj_t node = hwloc_get_obj_by_type(t, HWLOC_OBJ_NUMANODE, u2), io = objat(t, d, (unsigned)kind); struct hwloc_location loc;
+    if (!node || !io || !io->cpuset) { errno = ENOENT; return -2; }
+    loc.type = HWLOC_LOCATION_TYPE_CPUSET; loc.location.cpuset = io->cpuset;
+    return hwloc_memattr_set_value(t, u, node, &loc, 0, (hwloc_uint64_t)ll);
+  }
+  if (!strcmp(op, "obs")) { char *o = hwv_observe_str(t, 1); free(o); return 0; }
   if (sscanf(op, "misc %d %u %255s", &d, &u, a2) == 3) {
     hwloc_obj_t o = objat(t, d, u); if (!o) { errno = ENOENT; return -2; }
     return hwloc_topology_insert_misc_object(t, o, a2) ? 0 : -1;
@@ -146,6 +181,7 @@ static void do_dup(hwloc_topology_t A, hwloc_topology_t *Bp)
   fputc('P', stdout); fputc('B', stdout); fputc(' ', stdout); hwv_ptree(&wb, *Bp);
   wa.opq = wb.opq; wa.nopq = wb.nopq; wa.capopq = wb.capopq;
   hwv_sharing(stdout, &wa, &wb);
+  fflush(stdout);
   hwv_walk_fini(&wb, 0); hwv_walk_fini(&wa, 1);
   { /* allocation sequence of the same dup under a logging allocator */
     struct hwv_alloclog log = { 0 }; struct hwloc_tma tma; hwloc_topology_t C = NULL; unsigned i;
